@@ -496,6 +496,108 @@ fn representative_scripts(f: usize, nf: usize) -> Vec<Script> {
     ]
 }
 
+/// Fibers abandoned while suspended keep their captured variables for as long as a closure over them
+/// lives.  A maker function runs a fiber up to its first yield; the fiber hands out closures over its own
+/// locals (declared in its body, in a function it called, or in a fiber it called) and is then dropped:
+/// nothing refers to it any more.  Up to three such counters are made and used in every order of a
+/// bounded length; each keeps its own variable however many other fibers come and go in between.
+fn abandoned_fibers_keep_captured_variables() -> Vec<Expect> {
+    use crate::ast::*;
+    let mut out = Vec::new();
+    let counter_body = |depth: usize| -> Vec<Stmt> {
+        // the closure and its variable, `depth` function frames below the fiber's body
+        let core = vec![
+            var_stmt("count", var("start")),
+            var_stmt("step", lambda_block(&[], vec![expr_stmt(assign("count", bin(BinOp::Add, var("count"), num(1.0)))), st(StmtKind::Return(Some(var("count"))))])),
+            var_stmt("peek", lambda_expr(&[], Expr::VecLit(vec![s("count is"), var("count")]))),
+            expr_stmt(invoke(var("Fiber"), "yield", vec![Expr::VecLit(vec![var("step"), var("peek")])])),
+            print_stmt(s("never resumed")),
+        ];
+        match depth {
+            0 => core,
+            1 => vec![fn_stmt(func("inner", &[], core)), expr_stmt(call(var("inner"), vec![]))],
+            _ => vec![var_stmt("nested", invoke(var("Fiber"), "new", vec![lambda_block(&[], core)])), st(StmtKind::Return(Some(invoke(var("nested"), "call", vec![]))))],
+        }
+    };
+    for depth in 0..3 {
+        let maker = fn_stmt(func(
+            "make_counter",
+            &["start"],
+            vec![var_stmt("f", invoke(var("Fiber"), "new", vec![lambda_block(&[], counter_body(depth))])), st(StmtKind::Return(Some(invoke(var("f"), "call", vec![]))))],
+        ));
+        // every sequence of 4 actions over {make next counter, step counter 0/1/2, peek all, churn}
+        let actions = 6usize;
+        let len = 4usize;
+        for code in 0..actions.pow(len as u32) {
+            let mut seq = Vec::new();
+            let mut c = code;
+            for _ in 0..len {
+                seq.push(c % actions);
+                c /= actions;
+            }
+            // the first action always makes a counter
+            if seq[0] != 0 {
+                continue;
+            }
+            let mut prog = vec![maker.clone(), var_stmt("cs", Expr::VecLit(vec![]))];
+            let mut made = 0usize;
+            let mut ok = true;
+            // the expectation: each counter is a number of its own
+            let mut counts: Vec<i64> = Vec::new();
+            let mut lines: Vec<String> = Vec::new();
+            for a in &seq {
+                match a {
+                    0 => {
+                        if made == 3 {
+                            ok = false;
+                            break;
+                        }
+                        prog.push(expr_stmt(invoke(var("cs"), "push", vec![call(var("make_counter"), vec![num((made as f64 + 1.0) * 10.0)])])));
+                        counts.push((made as i64 + 1) * 10);
+                        made += 1;
+                    }
+                    1 | 2 | 3 => {
+                        let k = a - 1;
+                        if k >= made {
+                            ok = false;
+                            break;
+                        }
+                        prog.push(print_stmt(call(index(index(var("cs"), num(k as f64)), num(0.0)), vec![])));
+                        counts[k] += 1;
+                        lines.push(format!("{}", counts[k]));
+                    }
+                    4 => {
+                        prog.push(st(StmtKind::For("c".into(), var("cs"), vec![print_stmt(call(index(var("c"), num(1.0)), vec![]))])));
+                        for c in &counts {
+                            lines.push(format!("[count is, {}]", c));
+                        }
+                    }
+                    _ => prog.push(st(StmtKind::For("k".into(), bin(BinOp::Range, num(0.0), num(3.0)), vec![var_stmt("other", invoke(var("Fiber"), "new", vec![lambda_block(&[], vec![var_stmt("mine", Expr::VecLit(vec![var("k")])), expr_stmt(invoke(var("Fiber"), "yield", vec![var("mine")]))])])), expr_stmt(invoke(var("other"), "call", vec![]))]))),
+                }
+            }
+            if !ok {
+                continue;
+            }
+            prog.push(st(StmtKind::For("c".into(), var("cs"), vec![print_stmt(call(index(var("c"), num(0.0)), vec![])), print_stmt(call(index(var("c"), num(1.0)), vec![]))])));
+            for c in counts.iter_mut() {
+                *c += 1;
+                lines.push(format!("{}", c));
+                lines.push(format!("[count is, {}]", c));
+            }
+            let src = print_program(&prog, false);
+            out.push(Expect {
+                family: "abandoned_fibers_keep_captured_variables",
+                request: Request { op: "run".into(), snippets: vec![src], fuel: Some(2_000_000), gc: Some(proto::GcSpec { mode: "default".into(), only: vec![], quarantine: true }), want: vec!["uaf".into()], ..Default::default() },
+                out: vec![lines],
+                end: vec!["ok".into()],
+                describe: json!({"depth": depth, "actions": seq}),
+                nontrivial: true,
+            });
+        }
+    }
+    out
+}
+
 pub fn run(ctx: &Ctx) -> Report {
     let mut report = Report::new();
     let active = active_findings(ctx, &mut report);
@@ -694,7 +796,7 @@ pub fn run(ctx: &Ctx) -> Report {
     expect::fill(
         &mut report,
         &stats,
-        "for every pair of fiber scripts (fiber 0: every script up to the length bound over {print, yield value, yield nothing, x = yield, call the other fiber with/without argument, call itself, has_finished, return, throw} under each wrapper {none, nested function frame, try/catch, local kept across suspensions, captured variable, try/finally around the script, script inside a finally block entered by an exception, a local declared just before a try/catch around the script and printed after it}, with and without a parameter; fiber 1: representative scripts) a breadth-first search over sequences of main-program actions {call, call with argument, call with two arguments, has_finished, yield at top level} with canonical hashing of the model state; every transition is replayed on the real VM (program = definitions + action path) and must print exactly the model's labels; the fiber/raw-pointer agreement monitor runs at every instruction. For the plain wrapper every transition is replayed a second time with the fibers defined in an imported module and a main program that updates and prints a global of its own straight after every action.",
+        "for every pair of fiber scripts (fiber 0: every script up to the length bound over {print, yield value, yield nothing, x = yield, call the other fiber with/without argument, call itself, has_finished, return, throw} under each wrapper {none, nested function frame, try/catch, local kept across suspensions, captured variable, try/finally around the script, script inside a finally block entered by an exception, a local declared just before a try/catch around the script and printed after it}, with and without a parameter; fiber 1: representative scripts) a breadth-first search over sequences of main-program actions {call, call with argument, call with two arguments, has_finished, yield at top level} with canonical hashing of the model state; every transition is replayed on the real VM (program = definitions + action path) and must print exactly the model's labels; the fiber/raw-pointer agreement monitor runs at every instruction. For the plain wrapper every transition is replayed a second time with the fibers defined in an imported module and a main program that updates and prints a global of its own straight after every action. Plus fibers abandoned while suspended: counters (closures over a local of the fiber's body, of a function it called, of a fiber it called) handed out by fibers that nothing refers to afterwards, every sequence of four actions over {make the next counter, step counter 0/1/2, look at all, run three other fibers}, each counter's expected numbers computed by the explorer; swept objects quarantined, any touch of freed memory is a violation.",
         json!({"fibers": nf, "script_length": script_len, "main_sequence_length": main_depth}),
     );
     report.cov("states", json!(total_states));
@@ -705,9 +807,17 @@ pub fn run(ctx: &Ctx) -> Report {
     report.cov("script_pairs", json!(f0_scripts.len() * f1_scripts.len()));
     report.assumptions = vec![
         "an exception that leaves a fiber's outermost frame ends the whole run (the repository's throw_from_fiber script fixes that reading)".into(),
-        "fibers abandoned while suspended are covered by C01's heap-shape grammar (suspended fiber as a holder), not here".into(),
+        "for fibers abandoned while suspended the use-after-free side is C01's (suspended fiber as a holder, swept objects quarantined); here their captured variables are followed through every sequence of four uses of up to three counters handed out by abandoned fibers".into(),
     ];
     record_known(&mut report, &active, &stats.attributed);
     report.violations.extend(stats.violations);
+    // fibers abandoned while suspended: expected numbers computed here (M-eval has no yield)
+    {
+        let cases = abandoned_fibers_keep_captured_variables();
+        let n = cases.len();
+        let ms = expect::run_expect(ctx, &ctx.runner_checked, cases.into_iter(), &|_e, r| if r.uaf.is_empty() { None } else { Some(format!("use after free: {:?}", r.uaf)) }, &|_e, _p| None);
+        report.cov("abandoned_fiber_programs", json!(n));
+        report.violations.extend(ms.violations);
+    }
     report
 }
